@@ -1,6 +1,7 @@
 package ir
 
 import (
+	"go/constant"
 	"go/token"
 	"go/types"
 	"regexp"
@@ -69,6 +70,38 @@ func NormCond(c ssa.Value) (string, bool) {
 		}
 		return Desc(c), pol
 	}
+}
+
+// normBin normalises a comparison of two (already resolved) operands like
+// NormCond does for a BinOp value.
+func normBin(op token.Token, x, y ssa.Value) (string, bool) {
+	a, b := Desc(x), Desc(y)
+	switch op {
+	case token.EQL, token.NEQ:
+		if lessOperand(b, a, y, x) {
+			a, b = b, a
+		}
+		return "(" + a + " == " + b + ")", op == token.EQL
+	case token.LSS:
+		return "(" + a + " < " + b + ")", true
+	case token.GEQ:
+		return "(" + a + " < " + b + ")", false
+	case token.GTR:
+		return "(" + b + " < " + a + ")", true
+	case token.LEQ:
+		return "(" + b + " < " + a + ")", false
+	}
+	return "(" + a + " " + op.String() + " " + b + ")", true
+}
+
+func constCompare(op token.Token, x, y *ssa.Const) (bool, bool) {
+	switch op {
+	case token.EQL, token.NEQ, token.LSS, token.GTR, token.LEQ, token.GEQ:
+	default:
+		return false, false
+	}
+	defer func() { _ = recover() }()
+	return constant.Compare(x.Value, op, y.Value), true
 }
 
 func isBoolConst(k *ssa.Const) bool {
@@ -205,10 +238,40 @@ func boolPhis(fn *ssa.Function) map[*ssa.Phi]int {
 			} else if types.IsInterface(ph.Type()) && ph.Type().String() == "error" {
 				// error values merged from several branches and compared with nil later
 				m[ph] = len(m)
+			} else if comparedInIf(ph) {
+				// values merged from several branches and compared in a later If
+				// (e.g. `timeout` set on one branch, tested with `timeout > 0`)
+				m[ph] = len(m)
 			}
 		}
 	}
 	return m
+}
+
+func comparedInIf(ph *ssa.Phi) bool {
+	refs := ph.Referrers()
+	if refs == nil {
+		return false
+	}
+	for _, r := range *refs {
+		bo, ok := r.(*ssa.BinOp)
+		if !ok {
+			continue
+		}
+		switch bo.Op {
+		case token.EQL, token.NEQ, token.LSS, token.GTR, token.LEQ, token.GEQ:
+		default:
+			continue
+		}
+		if br := bo.Referrers(); br != nil {
+			for _, u := range *br {
+				if _, ok := u.(*ssa.If); ok {
+					return true
+				}
+			}
+		}
+	}
+	return false
 }
 
 func trackedConds(fn *ssa.Function) map[ssa.Value]int {
@@ -376,7 +439,30 @@ func (w *Walk) edgeAtom(b *ssa.BasicBlock, succ int, env []int8) (Atom, bool, bo
 	if succ == 1 {
 		vt = !vt
 	}
-	pred, p2 := NormCond(v)
+	var pred string
+	var p2 bool
+	if bo, ok := v.(*ssa.BinOp); ok {
+		x, _ := w.resolveVal(bo.X, env)
+		y, _ := w.resolveVal(bo.Y, env)
+		if x != bo.X || y != bo.Y {
+			// constant comparison after substitution decides the branch
+			if kx, ok := x.(*ssa.Const); ok {
+				if ky, ok := y.(*ssa.Const); ok && kx.Value != nil && ky.Value != nil {
+					if res, ok := constCompare(bo.Op, kx, ky); ok {
+						val := res == pol
+						if (succ == 0) == val {
+							return Atom{}, false, true, nil, false
+						}
+						return Atom{}, false, false, nil, false
+					}
+				}
+			}
+			pred, p2 = normBin(bo.Op, x, y)
+		}
+	}
+	if pred == "" {
+		pred, p2 = NormCond(v)
+	}
 	truth := vt == p2
 	return Atom{Pred: pred, Truth: truth}, true, true, v, vt
 }
